@@ -56,22 +56,24 @@ def run(ctx):
     for b in ("keep_tail", "cap_plus1", "merge_old"):
         ctx.spec_mutant("UndoHistory", "UndoHistory_%s.cfg" % b, workers=8)
     ctx.notes["spec_mutants_rejected"] = 3
-    raw = ctx.path("sim.raw")
-    depth = 70
-    r = ctx.tlc("UndoHistorySim", "UndoHistorySim.cfg", env={"OUT": raw, "DEPTH": depth}, workers=4, simulate=1500 if thorough else 150, depth=depth, seed=ctx.seed)
-    if r.violated:
-        raise core.Broken("UndoHistory.tla violated %s in simulation" % r.violated)
     seen = set()
+    depth = 70
     with open(ctx.path("ops.ndjson"), "w") as f:
-        for line in open(raw):
-            s = json.loads(line)
-            if s not in seen:
-                seen.add(s)
-                f.write(s + "\n")
-    os.remove(raw)
+        for cfg in ("UndoHistorySim.cfg", "UndoHistorySimCap.cfg"):
+            raw = ctx.path("sim.raw")
+            r = ctx.tlc("UndoHistorySim", cfg, env={"OUT": raw, "DEPTH": depth}, workers=4, simulate=1500 if thorough else 150, depth=depth, seed=ctx.seed)
+            if r.violated:
+                raise core.Broken("UndoHistory.tla violated %s in simulation" % r.violated)
+            for line in open(raw):
+                s = json.loads(line)
+                if s not in seen:
+                    seen.add(s)
+                    f.write(s + "\n")
+            os.remove(raw)
     ctx.driver("undo_driver", "asan", ["replay", ctx.path("ops.ndjson"), ctx.path("logA.ndjson")])
     recs = judge(ctx, ctx.path("logA.ndjson"), "simulated")
     ctx.notes["simulated_behaviours"] = len(recs)
+    ctx.notes["executions_reaching_the_20_entry_cap"] = sum(1 for r in recs if any(len(e["entries"]) >= 20 for e in r["ev"]))
     ctx.driver("undo_driver", "asan", ["random", ctx.seed, 20000 if thorough else 2000, ctx.path("logB.ndjson")])
     recs2 = judge(ctx, ctx.path("logB.ndjson"), "random")
     ctx.notes["random_executions"] = len(recs2)
